@@ -1,12 +1,15 @@
 """C15 - BIP38: fresh entropy for new keys; decrypt only with the right passphrase."""
 CONTRACT_MODULES = ['contracts.keys_hd', 'contracts.bip38']
 CONTRACTS = ['bitcoinlib.keys.bip38_intermediate_password[fresh-salt]', 'bitcoinlib.keys.bip38_create_new_encrypted_wif[fresh-seed-native]',
-             'bitcoinlib.keys.Key.encrypt[roundtrip-native]']
+             'bitcoinlib.keys.Key.encrypt[roundtrip-native]', 'bitcoinlib.keys.bip38_intermediate_password[spec-no-lot]',
+             'bitcoinlib.keys.bip38_intermediate_password[spec-lot]']
 LEVEL = 'proof'
 LEVEL_TEXT = ('FRESHNESS is decided deductively: (1) for every function of keys.py / encoding.py / mnemonic.py that has default arguments, the '
               'obligation "no default expression is a call" (defaults are evaluated once per process) is generated from the source and checked; '
               '(2) bip38_intermediate_password is executed symbolically with no salt supplied and must draw from the entropy source inside the '
-              'invocation, with the drawn bytes flowing into the result. The repaired defect (os.urandom in default arguments) was found this '
+              'invocation, with the drawn bytes flowing into the result; (3) AGREEMENT WITH BIP38 of the EC-multiplied intermediate code: for every passphrase, owner salt, lot and sequence '
+              'bip38_intermediate_password returns Base58Check(magic || ownerentropy || passfactor*G) with the NFC-normalised passphrase, the BIP38 scrypt parameters and '
+              'the lot/sequence packing (spec/bip38.py; scrypt / SHA-256 / point multiplication / Base58 uninterpreted). The repaired defect (os.urandom in default arguments) was found this '
               'way. The encrypt/decrypt round trip, wrong-passphrase refusal and create_new_encrypted_wif freshness are evaluated natively '
               'only (bounded stand-ins), because scrypt / AES / the Key constructor chain are outside the verified subset.')
 LEVEL_NOTE = ('Assumed models: os.urandom (fresh bytes per call), scrypt, unicodedata.normalize, HDKey(...) constructor, base58encode and to_bytes '
